@@ -157,7 +157,12 @@ class Alg:
             p = self.poly(t)
             r = self.poly_term(p)
         elif k == "b":
-            r = ("b", self.nb(t[1]))
+            r = ("B", self.nb(t[1]))
+        elif k == "B":
+            r = t
+        elif k == "icast":
+            x = self.canon(t[1])
+            r = x if value_preserving(t[2], t[3]) else ("icast", x, t[2], t[3])
         elif k == "ite":
             c = self.nb(t[1])
             a, b = self.canon(t[2]), self.canon(t[3])
@@ -298,7 +303,7 @@ class Alg:
                         term = term.mul(pa)
                 acc = acc.add(term)
             return self.poly_term(acc)
-        if t[0] == "b":
+        if t[0] in ("b", "B"):
             return t
         if t[0] == "rand":
             return ("rand", t[1], t[2], tuple(self.subst_EI(x, i) for x in t[3]))
@@ -311,8 +316,10 @@ class Alg:
             return True
         if t[0] == "rand":
             return any(self.has_EI(x) for x in t[3])
-        if t[0] == "b":
+        if t[0] == "B":
             return any(self.has_EI(a) for a in self.bdd.support(t[1]))
+        if t[0] == "b":
+            return False
         if t[0] == "poly":
             return any(self.has_EI(a) for m, _ in t[1] for a, _ in m)
         return any(self.has_EI(x) for x in t[1:] if isinstance(x, tuple))
@@ -450,14 +457,14 @@ class Alg:
             x = self.canon(a[1])
             if x[0] == "int":
                 return 1 if x[1] == a[2][1] else 0
-            if x[0] == "b":
+            if x[0] == "B":
                 return x[1] if a[2][1] else self.bdd.NOT(x[1])
             return self.bdd.var(("eq", x, a[2]))
         if k == "anyiter":
             cond = a[2]
             return self.bdd.var(("any", self.canon_loop_cond(a[1], cond)))
         c = self.canon(a)
-        if c[0] == "b":
+        if c[0] == "B":
             return c[1]
         return self.bdd.var(c)
 
@@ -571,3 +578,21 @@ def atoms_lv(t, uid, acc=None):
             for x in t:
                 atoms_lv(x, uid, acc)
     return acc
+
+
+_W = {"u8": 8, "u16": 16, "u32": 32, "u64": 64, "usize": 64, "u128": 128,
+      "i8": 8, "i16": 16, "i32": 32, "i64": 64, "isize": 64, "i128": 128}
+
+
+def value_preserving(f, t):
+    """Integer casts that keep the mathematical value for every input."""
+    if f not in _W or t not in _W:
+        return False
+    fu, tu = f.startswith("u"), t.startswith("u")
+    if fu and tu:
+        return _W[t] >= _W[f]
+    if (not fu) and (not tu):
+        return _W[t] >= _W[f]
+    if fu and not tu:
+        return _W[t] > _W[f]
+    return False
